@@ -220,7 +220,7 @@ pub fn gen_graph(p: &GraphParams, rng: &mut Rng) -> GraphSpec {
     }
 
     // 3. statements
-    let mut files = vec![];
+    let mut files: Vec<FileSpec> = vec![];
     for i in 0..n {
         let mut stmts: Vec<Stmt> = vec![];
         let mut forwarded: Vec<usize> = vec![];
@@ -260,6 +260,42 @@ pub fn gen_graph(p: &GraphParams, rng: &mut Rng) -> GraphSpec {
         let pos = rng.usize(stmts.len() + 1);
         stmts.insert(pos, if p.c03 { Stmt::ModuleVars } else { Stmt::Marker });
         files.push(FileSpec { path: paths[i].clone(), stmts });
+    }
+    // a load written in a mixin of a library module and run from one of its users
+    if p.wrappers && !p.c03 && n >= 2 && p.kinds.contains(&LoadKind::LoadCss) && rng.chance(1, 2) {
+        let uses: Vec<(usize, usize, String)> = files
+            .iter()
+            .enumerate()
+            .flat_map(|(x, f)| {
+                f.stmts.iter().filter_map(move |s| match s {
+                    Stmt::Load { kind: LoadKind::Use, target, ns, with_cfg: false, .. } if *target != x => {
+                        Some((x, *target, ns.clone()))
+                    }
+                    _ => None,
+                })
+            })
+            .collect();
+        if !uses.is_empty() {
+            let (x, lib, ns) = uses[rng.usize(uses.len())].clone();
+            let t = if p.cyclic {
+                Some(rng.usize(n))
+            } else if x + 1 < n {
+                Some(x + 1 + rng.usize(n - x - 1))
+            } else {
+                None
+            };
+            if let Some(t) = t {
+                if !paths[lib].ends_with(".css") {
+                    if let Some(url) = spell(&fs, &bases, &paths[lib], &paths[t], LoadKind::LoadCss, p, rng) {
+                        let id = rng.below(1000) as u32;
+                        let pos = rng.usize(files[lib].stmts.len() + 1);
+                        files[lib].stmts.insert(pos, Stmt::DefMixin { id, url, target: t });
+                        let pos = rng.usize(files[x].stmts.len() + 1);
+                        files[x].stmts.insert(pos, Stmt::CallMixin { ns, lib, id });
+                    }
+                }
+            }
+        }
     }
     let merge_imports = rng.chance(1, 3);
     GraphSpec { files, extra_dirs, bases, fmt: Fmt::draw(rng), merge_imports }
